@@ -89,6 +89,13 @@ class Robust(Part):
         if kind == "worstcase" and n >= 2 and rng.random() < 0.25:
             tols[rng.randrange(n)] = 0.0        # a declared tolerance of exactly 0: that parameter's two neighbours coincide with the design
         coef = [rng.randint(1, 9) for _ in range(n)]
+        # the unit of the objective: 1, or 2**-20 (a quantity in SI units, ~1e-6): every cost is an exact binary multiple of it, so the
+        # sensitivity -- a sum of absolute differences of COSTS -- is one too; only the signed copy is rounded to the declared precision
+        S = 2.0 ** -20 if (kind == "worstcase" and case.get("run") is None and case["cseed"] % 3 == 0) else 1.0
+
+        def units(v, nearest=False):
+            q = float(v) / S
+            return int(round(q)) if (nearest or abs(q - round(q)) < 1e-6) else -77777
         calls = {}
         lock_vectors = {}
 
@@ -103,7 +110,7 @@ class Robust(Part):
             if kind == "gradient":
                 first = sum(c * x * x for c, x in zip(coef, ind.vector))
                 return [first] + [float(fint(ind.vector, j)) for j in range(1, um)]
-            return [float(fint(ind.vector, j)) for j in range(um)]
+            return [S * float(fint(ind.vector, j)) for j in range(um)]
         costs = [{'name': 'f_%d' % (j + 1), 'criteria': rng.choice(['minimize', 'maximize']) if j else 'minimize'} for j in range(um)]
         bounds = [[-20.0, 20.0] for _ in range(n)]
         pinned = case.get("pinned")
@@ -149,10 +156,10 @@ class Robust(Part):
                 if kind == "worstcase":
                     rec["f"] = fint(x, 0)
                     rec["fc"] = [fint(c.vector, 0) for c in ch]
-                    rec["childcosts"] = [int(round(c.costs[0])) if c.costs else -99999 for c in ch]
-                    rec["sens"] = int(round(ind.costs[-1])) if len(ind.costs) > um else -1
-                    rec["sensfeature"] = int(round(ind.features.get('sensitivity', -1)))
-                    rec["signedsens"] = int(round(ind.costs_signed[-2])) if len(ind.costs_signed) >= 2 else -1
+                    rec["childcosts"] = [units(c.costs[0]) if c.costs else -99999 for c in ch]
+                    rec["sens"] = units(ind.costs[-1]) if len(ind.costs) > um else -1
+                    rec["sensfeature"] = units(ind.features['sensitivity']) if 'sensitivity' in ind.features else -1
+                    rec["signedsens"] = units(ind.costs_signed[-2], nearest=True) if len(ind.costs_signed) >= 2 else -1
                 else:
                     g = ind.features.get('gradient')
                     rec["gradlen"] = len(g) if g is not None else 0
